@@ -716,7 +716,7 @@ THEOREMS = ["Dashu.Props.C14." + n for n in (
     "float_cmp_ubig float_cmp_ibig float_cmp_float ratio_cmp_ubig ratio_cmp_ibig ratio_cmp_float ratio_cmp_ratio ratio_eq_ratio "
     "num_ord_exact_partial num_eq_exact_partial num_ord_oracle_independent num_ord_zero_counterexample num_ord_inf_counterexample "
     "decoded_in_range abs_ord_exact_partial abs_ord_counterexample abs_ord_ibig_counterexample float_abs_cmp_same_base ord_exact "
-    "ratio_abs_cmp_ratio ratio_abs_cmp_float mersenne127_prime hash_is_function_of_value num_hash_value_partial "
+    "ratio_abs_cmp_ratio ratio_abs_cmp_float mersenne127_prime hash_is_function_of_value num_hash_value_partial num_hash_value_weak_partial "
     "num_hash_corner_counterexample num_hash_canon_value num_hash_canon_eq_code").split()]
 TECHNIQUE = "Lean 4 theorems over an executable mirrored model with estimate-oracle parameters + differential correspondence model vs real code"
 JOBS = 14
